@@ -54,7 +54,7 @@ def run(P, rep, tier):
     # are part of this check as well (rule ids C01.R1/R2/R3/R6)
     from . import c01
 
-    for fn in (c01.r1_children, c01.r2_delete_marker, c01.r3_create, c01.r4_markers, c01.r6_move_copy, c01.r7_snapshot_before_mutation, c01.r8_resolution_owner, c01.r9_handle_provenance):
+    for fn in (c01.r1_children, c01.r2_delete_marker, c01.r3_create, c01.r4_markers, c01.r6_move_copy, c01.r7_snapshot_before_mutation, c01.r8_resolution_owner, c01.r9_handle_provenance, c01.r10_copy_into_patch_callers):
         rep.attempt(fn, P, rep, ctx)
     # copy semantics (what is copied, attribute switch, children) are part of the driver agreement: the IH5 copy is
     # implemented in h5_copy_from_to, the HDF5 one by h5py (rule ids C05.R4)
